@@ -53,6 +53,9 @@ CLAIMED = {
     'C14': ("Coq proof over a pipe/process transition system for every program, capacity and schedule: no deadlock, termination measure, complete capture; strategy regenerated from source",
             "Theorems: for the concurrent draining strategy (regenerated from RunCommand's AST) every reachable non-final state has a successor, a measure strictly decreases on every step (no fairness needed), and every final state holds the in-order concatenation per stream and the exact status (-1 for a signal), for all child programs, pipe capacities, chunkings and schedules; the sequential strategy has a constructed deadlock." + CORR,
             "DESIGN.md §5 C14", "Kernel pipes, os/exec internals and scheduling are outside the model; the deadline-bounded real runs are runtime evidence."),
+    'C16': ("Coq proof: write-free threads are serialisable under every interleaving; inventory of package-level state regenerated from source; race-detector runs",
+            "Theorems over an interleaving semantics of n threads on a shared store: threads that neither write shared variables nor read written ones return, under every schedule, exactly their sequential results (general disjoint-footprint commutation theorem); the regenerated inventory of writes to / aliases of package-level variables of in_toto is empty (by reflexivity), so library calls on independent data fall under the theorem. Runtime evidence: 2-32 goroutines of mixed independent calls under the race detector compared with the sequential run, cold-start processes included." + CORR,
+            "DESIGN.md §5 C16", "The Go memory model, races inside the standard library or third-party packages and state shared through arguments or the process environment are outside the abstraction; a clean race-detector run is evidence, not proof."),
     'C17': ("Coq proof: glob model = documented grammar (parser + denotation) for all valid-UTF-8 patterns and all names; Bad iff malformed; exhaustive correspondence",
             "Theorems for patterns and names of any length: the transcription of match.go equals the declarative grammar semantics (three-valued) for every valid-UTF-8 pattern; for all patterns a reported match is justified by the grammar, the result is Bad exactly for malformed patterns, and the panic outcomes are unreachable; Set.Filter keeps exactly the matching names." + CORR,
             "DESIGN.md §5 C17", "For patterns that are not valid UTF-8 only soundness is proved (a counterexample to equality is recorded)."),
